@@ -255,12 +255,15 @@ def build_funcs(d, n, ctx):
 
 
 PARAM_FORMS = ["int p%d", "char *p%d", "int p%d[3]", "const char *p%d", "int (*p%d)(int, char)", "void *p%d", "char **p%d", "unsigned int p%d",
-               "void (*p%d)(void *, int, int)"]
+               "void (*p%d)(void *, int, int)", "t_list *p%d", "struct s_x *p%d", "int p%d[2][2]", "char *const p%d", "void *(*p%d)(void *)", "size_t p%d",
+               "char *p%d[]", "union u_v p%d", "enum e_k p%d", "long long p%d"]
 
 
 def build_params(d, n, ctx):
     name = "test.c" if ctx["where"] == "def" else "test.h"
     params = ", ".join(ctx["forms"][k % len(ctx["forms"])] % k for k in range(n))
+    if ctx.get("variadic") and n >= 1:
+        params += ", ..."       # not a named parameter: the measure stays n
     if ctx["where"] in ("def-fptr-ret", "proto-fptr-ret"):
         # the function returns a pointer to function: its own parameters are the inner list
         ret_params = ", ".join(["int"] * ctx.get("ret_n", 1))
@@ -295,7 +298,10 @@ def build_params(d, n, ctx):
     return name, "\n".join(lines) + "\n", (m, m)
 
 
-DECL_FORMS = ["int\t\t\tv%d;", "char\t\t*v%d;", "static int\tv%d = 0;", "char\t\tv%d[12];", "int\t\t\t(*v%d)(int, int);", "long\t\tv%d;", "const char\t*v%d;"]
+DECL_FORMS = ["int\t\t\tv%d;", "char\t\t*v%d;", "static int\tv%d = 0;", "char\t\tv%d[12];", "int\t\t\t(*v%d)(int, int);", "long\t\tv%d;", "const char\t*v%d;",
+              "char\t\tv%d[sizeof(long)];", "char\t\tv%d[(4 + 4)];", "int\t\t\tv%d[2][3];", "t_list\t\t*v%d;", "struct s_x\tv%d;", "char\t\tv%d['z' - 'a' + 1];",
+              "long long\tv%d;", "char\t\t**v%d;", "void\t\t*(*v%d)(void *);", "t_list\t\tv%d;", "size_t\t\tv%d;", "char\t\tv%d[SIZE + 1];", "union u_v\tv%d;",
+              "const int\tv%d = 3;"]
 
 
 def build_vars(d, n, ctx):
@@ -323,7 +329,7 @@ def context(d):
     if limit == "funcs":
         return limit, {"protos": d.bool(0.4), "sizes": [d.int(1, 6) for _ in range(4)]}, d
     if limit == "params":
-        return limit, {"where": d.choice(["def", "proto", "def-fptr-ret", "proto-fptr-ret"]), "forms": [d.choice(PARAM_FORMS) for _ in range(4)], "ret_n": d.int(1, 6)}, d
+        return limit, {"where": d.choice(["def", "proto", "def-fptr-ret", "proto-fptr-ret"]), "forms": [d.choice(PARAM_FORMS) for _ in range(4)], "ret_n": d.int(1, 6), "variadic": d.bool(0.15)}, d
     return limit, {"forms": [d.choice(DECL_FORMS) for _ in range(4)], "before": d.int(0, 5)}, d
 
 
